@@ -5,6 +5,7 @@
 
 use crate::rng::{self, Rng};
 use crate::sched::{self, SimCfg, Strategy};
+use crate::sendable::Sendable;
 use crate::tracked::{self, T24};
 use crate::{RunResult, alloc, viol};
 use roto::{FileTree, NoCtx, Package, RotoString, Runtime, TypedFunc, Val, library};
@@ -27,6 +28,8 @@ pub enum LifeOp {
     Call { h: usize, x: u64 },
     DropHandle { h: usize },
     DropPackage { p: usize },
+    /// turn the handle in slot `h` into a plain closure (`TypedFunc::into_func`); it still is a holder
+    IntoFunc { h: usize },
 }
 
 #[derive(Clone, Debug, Serialize, Deserialize)]
@@ -150,17 +153,23 @@ fn t(v: Tr) -> Tr {{ if val(v) > 5 {{ C }} else {{ v }} }}
 
 struct RtEnt {
     rid: u64,
-    rt: Runtime<NoCtx>,
+    rt: Sendable<Runtime<NoCtx>>,
 }
 struct PkEnt {
     m: u64,
-    pkg: Package<NoCtx>,
+    pkg: Sendable<Package<NoCtx>>,
 }
-#[derive(Clone)]
 enum Hf {
-    F(TypedFunc<NoCtx, fn(u64) -> u64>),
-    S(TypedFunc<NoCtx, fn(RotoString) -> RotoString>),
-    T(TypedFunc<NoCtx, fn(Val<T24>) -> Val<T24>>),
+    /// closure made by `into_func` from an `F` handle
+    C(Sendable<Box<dyn Fn(u64) -> u64>>),
+    F(Sendable<TypedFunc<NoCtx, fn(u64) -> u64>>),
+    S(Sendable<TypedFunc<NoCtx, fn(RotoString) -> RotoString>>),
+    T(Sendable<TypedFunc<NoCtx, fn(Val<T24>) -> Val<T24>>>),
+}
+
+/// May runtimes, packages and handles cross threads in the tree under test?
+fn objects_may_cross_threads() -> bool {
+    crate::is_send_sync!(Runtime<NoCtx>) && crate::is_send_sync!(Package<NoCtx>) && crate::is_send_sync!(TypedFunc<NoCtx, fn(u64) -> u64>)
 }
 struct HdEnt {
     m: u64,
@@ -352,6 +361,7 @@ fn label(op: &LifeOp) -> &'static str {
         LifeOp::Call { .. } => "call",
         LifeOp::DropHandle { .. } => "drop-handle",
         LifeOp::DropPackage { .. } => "drop-package",
+        LifeOp::IntoFunc { .. } => "into-func",
     }
 }
 
@@ -376,12 +386,12 @@ fn exec_inner(op: &LifeOp) -> bool {
         LifeOp::NewRuntime { r, rid } => {
             let rt = mk_runtime(*rid);
             with_model(|m| *m.rt_clones.entry(*rid).or_insert(0) += 1);
-            put_rt(*r, RtEnt { rid: *rid, rt });
+            put_rt(*r, RtEnt { rid: *rid, rt: Sendable(rt) });
             true
         }
         LifeOp::CloneRuntime { src, dst } => {
             let Some(e) = with_pools(|p| p.rts[*src].take()) else { return false };
-            let c = RtEnt { rid: e.rid, rt: e.rt.clone() };
+            let c = RtEnt { rid: e.rid, rt: Sendable(e.rt.0.clone()) };
             with_model(|m| *m.rt_clones.entry(c.rid).or_insert(0) += 1);
             back_rt(*src, e);
             put_rt(*dst, c);
@@ -414,7 +424,7 @@ fn exec_inner(op: &LifeOp) -> bool {
                         md.mods.insert(*m, Mod { rid, k: *k, pkg: true, handles: 0, compiled_by: me, after_failed_reload: failed_before });
                     });
                     back_rt(*r, e);
-                    put_pk(*p, PkEnt { m: *m, pkg });
+                    put_pk(*p, PkEnt { m: *m, pkg: Sendable(pkg) });
                 }
                 Err(rep) => {
                     back_rt(*r, e);
@@ -453,9 +463,9 @@ fn exec_inner(op: &LifeOp) -> bool {
         LifeOp::GetHandle { p, h, which } => {
             let Some(mut e) = with_pools(|pl| pl.pks[*p].take()) else { return false };
             let f = match which {
-                0 => e.pkg.get_function::<fn(u64) -> u64>("f").map(Hf::F).map_err(|x| x.to_string()),
-                1 => e.pkg.get_function::<fn(RotoString) -> RotoString>("s").map(Hf::S).map_err(|x| x.to_string()),
-                _ => e.pkg.get_function::<fn(Val<T24>) -> Val<T24>>("t").map(Hf::T).map_err(|x| x.to_string()),
+                0 => e.pkg.get_function::<fn(u64) -> u64>("f").map(|f| Hf::F(Sendable(f))).map_err(|x| x.to_string()),
+                1 => e.pkg.get_function::<fn(RotoString) -> RotoString>("s").map(|f| Hf::S(Sendable(f))).map_err(|x| x.to_string()),
+                _ => e.pkg.get_function::<fn(Val<T24>) -> Val<T24>>("t").map(|f| Hf::T(Sendable(f))).map_err(|x| x.to_string()),
             };
             let m = e.m;
             match f {
@@ -477,7 +487,17 @@ fn exec_inner(op: &LifeOp) -> bool {
         }
         LifeOp::CloneHandle { src, dst } => {
             let Some(e) = with_pools(|p| p.hds[*src].take()) else { return false };
-            let c = HdEnt { m: e.m, f: e.f.clone() };
+            let f2 = match &e.f {
+                Hf::C(_) => None,
+                Hf::F(f) => Some(Hf::F(f.clone())),
+                Hf::S(f) => Some(Hf::S(f.clone())),
+                Hf::T(f) => Some(Hf::T(f.clone())),
+            };
+            let Some(f2) = f2 else {
+                back_hd(*src, e);
+                return false;
+            };
+            let c = HdEnt { m: e.m, f: f2 };
             with_model(|md| {
                 if let Some(x) = md.mods.get_mut(&c.m) {
                     x.handles += 1;
@@ -506,8 +526,12 @@ fn exec_inner(op: &LifeOp) -> bool {
             let _ = take_hostlog();
             IN_CALL.fetch_add(1, SeqCst);
             match &e.f {
-                Hf::F(f) => {
-                    let got = f.call(*x);
+                Hf::F(_) | Hf::C(_) => {
+                    let got = match &e.f {
+                        Hf::F(f) => f.call(*x),
+                        Hf::C(c) => (c.0)(*x),
+                        _ => unreachable!(),
+                    };
                     let log = take_hostlog();
                     let want = x.wrapping_mul(k) + 2 * c + (200 + rid) + (100 + rid) + 2 + 1;
                     let want_log: Vec<(&str, u64)> = vec![("log", *x), ("val", c), ("val", c), ("val", 200 + rid), ("cap", 100 + rid)];
@@ -551,6 +575,22 @@ fn exec_inner(op: &LifeOp) -> bool {
             drop_pk(e);
             true
         }
+        LifeOp::IntoFunc { h } => {
+            let Some(e) = with_pools(|p| p.hds[*h].take()) else { return false };
+            let m = e.m;
+            match e.f {
+                Hf::F(f) => {
+                    // the closure replaces the handle as a holder of the module (no model change)
+                    let c: Box<dyn Fn(u64) -> u64> = Box::new(f.0.into_func());
+                    back_hd(*h, HdEnt { m, f: Hf::C(Sendable(c)) });
+                    true
+                }
+                other => {
+                    back_hd(*h, HdEnt { m, f: other });
+                    false
+                }
+            }
+        }
     }
 }
 
@@ -565,7 +605,7 @@ struct Sym {
     next_m: u64,
 }
 
-fn gen_op(r: &mut Rng, s: &mut Sym, weights: &[u32; 10]) -> Option<LifeOp> {
+fn gen_op(r: &mut Rng, s: &mut Sym, weights: &[u32; 11]) -> Option<LifeOp> {
     let full = |v: &Vec<Option<u64>>| -> Vec<usize> { (0..v.len()).filter(|&i| v[i].is_some()).collect() };
     let empty_or_any = |r: &mut Rng, v: &Vec<Option<u64>>| -> usize {
         let e: Vec<usize> = (0..v.len()).filter(|&i| v[i].is_none()).collect();
@@ -638,6 +678,9 @@ fn gen_op(r: &mut Rng, s: &mut Sym, weights: &[u32; 10]) -> Option<LifeOp> {
                 s.pks[p] = None;
                 return Some(LifeOp::DropPackage { p });
             }
+            10 if !hds.is_empty() => {
+                return Some(LifeOp::IntoFunc { h: *r.pick(&hds) });
+            }
             _ => {}
         }
     }
@@ -649,10 +692,10 @@ pub fn generate(run_seed: u64, thorough: bool) -> LifeDesc {
     let mut s = Sym { rts: vec![None; N_RT], pks: vec![None; N_PK], hds: vec![None; N_HD], next_rid: 0, next_m: 0 };
     // phase 1: sequential setup on the main thread
     let mut setup = Vec::new();
-    let w_setup: [u32; 10] = [18, 6, 6, 22, 4, 22, 8, 6, 4, 4];
+    let w_setup: [u32; 11] = [12, 6, 6, 22, 4, 24, 8, 8, 4, 4, 3];
     let n_setup = 3 + r.below(if thorough { 10 } else { 7 });
     // always start with a runtime
-    setup.push(gen_op(&mut r, &mut s, &[1, 0, 0, 0, 0, 0, 0, 0, 0, 0]).unwrap());
+    setup.push(gen_op(&mut r, &mut s, &[1, 0, 0, 0, 0, 0, 0, 0, 0, 0, 0]).unwrap());
     for _ in 0..n_setup {
         if let Some(op) = gen_op(&mut r, &mut s, &w_setup) {
             setup.push(op);
@@ -661,7 +704,7 @@ pub fn generate(run_seed: u64, thorough: bool) -> LifeDesc {
     // phase 2: a random merge of operations over 1-3 threads
     let nthreads = 1 + r.weighted(&[10, 55, 35]);
     let per = if thorough { 3 + r.below(10) } else { 2 + r.below(6) } as usize;
-    let w: [u32; 10] = [4, 4, 8, 14, 4, 12, 8, 26, 12, 8];
+    let w: [u32; 11] = [3, 4, 8, 13, 4, 12, 8, 30, 12, 8, 4];
     let mut threads: Vec<Vec<LifeOp>> = vec![Vec::new(); nthreads];
     for _ in 0..per * nthreads {
         let t = r.below(nthreads as u64) as usize;
@@ -742,7 +785,24 @@ pub fn execute(d: &LifeDesc, keep_trace: bool) -> RunResult {
     }
     // phase 2 under the simulator
     let mut out = sched::SimOutcome::default();
-    if !viol::any() {
+    let single = !objects_may_cross_threads();
+    if !viol::any() && single {
+        // runtimes/packages/handles are not Send + Sync in this tree: no object may cross
+        // threads, so the history is executed sequentially where it was built (this thread)
+        let _rg = alloc::ModeGuard::new(alloc::MODE_RUN);
+        let n = d.threads.iter().map(|t| t.len()).max().unwrap_or(0);
+        'seq: for i in 0..n {
+            for t in &d.threads {
+                if let Some(op) = t.get(i) {
+                    exec(op);
+                    if viol::any() {
+                        break 'seq;
+                    }
+                }
+            }
+        }
+    }
+    if !viol::any() && !single {
         let bodies: Vec<sched::Body> = d
             .threads
             .iter()
@@ -844,6 +904,9 @@ pub fn execute(d: &LifeDesc, keep_trace: bool) -> RunResult {
     c.insert(format!("strategy_{}", d.strategy.split('/').next().unwrap_or("")), 1);
     c.insert("ops".into(), (d.setup.len() + d.threads.iter().map(|t| t.len()).sum::<usize>()) as u64);
     c.insert("ops_executed".into(), P_EXECUTED.load(SeqCst));
+    if single {
+        c.insert("degraded_to_single_thread_objects_not_send_sync".into(), 1);
+    }
     c.insert("ops_skipped_slot_empty".into(), P_SKIPPED.load(SeqCst));
     c.insert("not_before_checks".into(), P_CHECKS.load(SeqCst));
     c.insert("probe_compile_overlapped_another_compile".into(), P_COMPILE_OVERLAP.load(SeqCst));
